@@ -47,7 +47,44 @@ VALUE_PRESERVING_WRITERS = {
 }
 
 
-def internal_assert_reason(qname, node, fnode=None):
+def helper_owners(p):
+    """private helpers (single leading underscore) whose callers are all one function F or other
+    helpers owned by F: {helper qname: F qname}.  Table entries written for F (reasons about
+    data invariants holding inside F) extend to the code F has moved into such helpers."""
+    callers = {}
+    for f in p.all_funcs():
+        m = p.modules[f.module]
+        for n in ast.walk(f.node):
+            if not isinstance(n, ast.Call):
+                continue
+            g = None
+            if isinstance(n.func, ast.Name) and n.func.id in m.funcs and "." not in n.func.id:
+                g = m.funcs[n.func.id]
+            elif isinstance(n.func, ast.Attribute) and isinstance(n.func.value, ast.Name) and n.func.value.id in ("self", "cls") and f.cls:
+                g = m.funcs.get("%s.%s" % (f.cls, n.func.attr))
+            if g is not None and g.qname != f.qname:
+                callers.setdefault(g.qname, set()).add(f.qname)
+    owner = {}
+    changed = True
+    while changed:
+        changed = False
+        for h, cs in callers.items():
+            hf = p.func(h, required=False)
+            if h in owner or hf is None or not (hf.node.name.startswith("_") and not hf.node.name.startswith("__")):
+                continue
+            roots = {owner.get(c, c) for c in cs}
+            if len(roots) == 1:
+                owner[h] = roots.pop()
+                changed = True
+    return owner
+
+
+def internal_assert_reason(qname, node, fnode=None, table=None):
+    INTERNAL_ASSERTS_ = table if table is not None else INTERNAL_ASSERTS
+    return _iar(INTERNAL_ASSERTS_, qname, node, fnode)
+
+
+def _iar(INTERNAL_ASSERTS, qname, node, fnode=None):
     if qname in INTERNAL_ASSERTS:
         return INTERNAL_ASSERTS[qname]
     for k, v in INTERNAL_ASSERTS.items():
@@ -92,15 +129,31 @@ class World(object):
 
     def __init__(self, config="py3", pkg_dir=None):
         self.p = Program(config, pkg_dir)
+        own = helper_owners(self.p)
+        self.internal_asserts = dict(INTERNAL_ASSERTS)
+        self.infeasible = dict(INFEASIBLE)
+        for h, F in own.items():
+            for k, v in INTERNAL_ASSERTS.items():
+                if k == F:
+                    self.internal_asserts.setdefault(h, v)
+                elif isinstance(k, tuple) and k[0] == F:
+                    self.internal_asserts.setdefault((h, k[1]), v)
+            for (q, e), v in INFEASIBLE.items():
+                if q == F:
+                    self.infeasible.setdefault((h, e), v)
+        self.owners = own
         ia = {}
-        for k, v in INTERNAL_ASSERTS.items():
+        for k, v in self.internal_asserts.items():
+            if isinstance(k, tuple):
+                ia[k] = v
+                continue
             if isinstance(k, str) and "*" in k:
                 for f in self.p.all_funcs():
                     if fnmatch.fnmatchcase(f.qname, k):
                         ia[f.qname] = v
             elif isinstance(k, str):
                 ia[k] = v
-        self.lite = Lite(self.p, internal_asserts=ia, infeasible=INFEASIBLE)
+        self.lite = Lite(self.p, internal_asserts=ia, infeasible=self.infeasible)
         self._check_tables()
 
     def _check_tables(self):
@@ -115,8 +168,17 @@ class World(object):
                 raise AnalysisError("table entry names a vanished function: %s" % q)
 
     def interp(self, policy=None):
-        it = Interp(self.p, policy=policy or default_policy, lite=self.lite)
-        it.internal_asserts = lambda ctx, node: internal_assert_reason(ctx.qname, node, self.p.func(ctx.qname).node if self.p.func(ctx.qname, required=False) else None)
+        if policy is None:
+            own = self.owners
+
+            def policy(f):
+                # code a deeply-analysed function has moved into its private helpers is analysed with it
+                o = own.get(f.qname)
+                if o is not None and self.p.func(o, required=False) is not None and default_policy(self.p.func(o)) == "inline" and f.module in ("numbertheory",):
+                    return "inline"
+                return default_policy(f)
+        it = Interp(self.p, policy=policy, lite=self.lite)
+        it.internal_asserts = lambda ctx, node: internal_assert_reason(ctx.qname, node, self.p.func(ctx.qname).node if self.p.func(ctx.qname, required=False) else None, self.internal_asserts)
         classes = set(self.p.class_by_name)
         for fld, tags in self.lite.field_types.items():
             ks = {t for t in tags if t in classes or t == "INFINITY"}
@@ -128,7 +190,7 @@ class World(object):
         for (k, fld), tags in self.lite.field_types_by_cls.items():
             it.field_types_by_cls[(k, fld)] = frozenset(t for t in tags if t in classes or t == "INFINITY")
         it.global_writers = self.lite.global_writers
-        it.infeasible = INFEASIBLE
+        it.infeasible = self.infeasible
         it.class_invariants["baselen"] = _curve_invariant("baselen", only_cls="Curve")
         it.class_invariants["order"] = _curve_invariant("order", only_cls="Curve")
         it.class_invariants["verifying_key_length"] = _curve_invariant("verifying_key_length")
